@@ -20,3 +20,11 @@ open Tins.Wire.RawCoverage Lean Elab Command in
         let n := firstName s
         if !(env.contains n) then IO.println s!"BADNAME\t{n}\t{r.1.s}"
     | _ => pure ()
+  -- the same check for the entry-point table (Wire/Coverage.lean)
+  for r in Tins.Wire.Coverage.table do
+    match r.2 with
+    | .modelled m t _ =>
+      for s in [m, t] do
+        let n := firstName s
+        if !(env.contains n) then IO.println s!"BADNAME\t{n}\tentry point {r.1.s}"
+    | _ => pure ()
